@@ -71,10 +71,42 @@ theorem Qdir_div_le {α β : Type} [DecidableEq α] [DecidableEq β] (W : RMat n
     (c : Fin n → α) (c' : Fin n → β) (h : Qobj (Bmod W γ) c ≤ Qobj (Bmod W γ) c') : Qdir W γ c ≤ Qdir W γ c' := by
   unfold Qdir; exact div_le_div_of_nonneg_right h (le_of_lt hs)
 
-/-- the level sentinel `(singletons, −1)` or a genuine level: reported `q` is the modularity of the level's
-partition of the *original* network and is at least the modularity of the all-singletons start -/
-def LevelOK (W0 : RMat n) (γ : ℚ) (p : Lab n × ℚ) : Prop :=
-  p = (idLab n, -1) ∨ (p.2 = Qund W0 γ (labOf p.1) ∧ Qund W0 γ (id : Fin n → Fin n) ≤ p.2)
+/-- the loop only ever puts new levels in front of the ones it has -/
+theorem louvainUndLoop_suffix (s γ : ℚ) :
+    ∀ (fuel : ℕ) (W : RMat n) (L L' : LvSt n) (ds rest : List ℕ), louvainUndLoop s γ fuel W L ds = .ok (L', rest) →
+      ∃ ext, L'.acc = ext ++ L.acc := by
+  intro fuel
+  induction fuel with
+  | zero => intro W L L' ds rest h; simp [louvainUndLoop] at h
+  | succ fuel ih =>
+    intro W L L' ds rest h
+    unfold louvainUndLoop at h
+    simp only [bind, Except.bind, pure, Except.pure] at h
+    generalize hp : passes (undKern n) L.nh L.nh (ds.length + 1) _ ds = res at h
+    cases res with
+    | error e => simp at h
+    | ok r =>
+      obtain ⟨x, rest1⟩ := r
+      simp only at h
+      by_cases hst : x.starved.isSome = true
+      · simp only [hst, if_true] at h
+        cases h
+        exact ⟨[], rfl⟩
+      · simp only [hst] at h
+        obtain ⟨m', hm', _⟩ := toLab_ok (labFn x.m)
+        simp only [hm'] at h
+        by_cases hstop : (L.hasPrev && decide (qTraceDot (aggUpper W m') s γ - L.qprev < thr)) = true
+        · simp only [hstop, if_true] at h
+          cases h
+          exact ⟨[], rfl⟩
+        · simp only [hstop] at h
+          obtain ⟨ext, he⟩ := ih _ _ _ _ _ h
+          exact ⟨ext ++ [(compose L.ci m', qTraceDot (aggUpper W m') s γ)], by rw [he]; simp⟩
+
+/-- a level as `modularity_louvain_und` reports it: `q` is the modularity of the level's partition of the original
+network, and it is at least the modularity of the all-singletons start -/
+def Genuine (W0 : RMat n) (γ : ℚ) (p : Lab n × ℚ) : Prop :=
+  p.2 = Qund W0 γ (labOf p.1) ∧ Qund W0 γ (id : Fin n → Fin n) ≤ p.2
 
 /-- invariant of the level loop of `modularity_louvain_und` -/
 structure LvInv (W0 : RMat n) (γ : ℚ) (W : RMat n) (L : LvSt n) : Prop where
@@ -83,16 +115,18 @@ structure LvInv (W0 : RMat n) (γ : ℚ) (W : RMat n) (L : LvSt n) : Prop where
   /-- `W` is `W0` aggregated along `L.ci` -/
   agg : ∀ c' : Fin n → Fin n, Qdir W γ c' = Qdir W0 γ (fun v => c' (labOf L.ci v))
   start : Qund W0 γ (id : Fin n → Fin n) ≤ Qdir W0 γ (labOf L.ci)
-  head : ∃ tl, L.acc = (L.ci, L.qprev) :: tl
-  prev : (L.ci, L.qprev) = (idLab n, -1) ∨ L.qprev = Qdir W0 γ (labOf L.ci)
-  ok : ∀ p ∈ L.acc, LevelOK W0 γ p
+  /-- either nothing has been kept yet (`q[0] = -inf`), or the most recent level is `(L.ci, L.qprev)` -/
+  head : (L.acc = [] ∧ L.hasPrev = false) ∨ (∃ tl, L.acc = (L.ci, L.qprev) :: tl) ∧ L.hasPrev = true
+  ok : ∀ p ∈ L.acc, Genuine W0 γ p
   /-- most recent first: each kept level gained at least `1e-10` over the one before -/
   chain : List.IsChain (fun a b : Lab n × ℚ => b.2 + thr ≤ a.2) L.acc
 
 theorem louvainUndLoop_spec (W0 : RMat n) (γ : ℚ) (hW0 : Symm W0) (hs : 0 < total W0) :
     ∀ (fuel : ℕ) (W : RMat n) (L L' : LvSt n) (ds rest : List ℕ), LvInv W0 γ W L →
       louvainUndLoop (total W0) γ fuel W L ds = .ok (L', rest) →
-      (∀ p ∈ L'.acc, LevelOK W0 γ p) ∧ List.IsChain (fun a b : Lab n × ℚ => b.2 + thr ≤ a.2) L'.acc := by
+      (∀ p ∈ L'.acc, Genuine W0 γ p) ∧ List.IsChain (fun a b : Lab n × ℚ => b.2 + thr ≤ a.2) L'.acc ∧
+      -- a level is added unless the draws ran out or (not at the first level) the new level fails to gain `1e-10`
+      (L'.starved = none → L.hasPrev = false → L'.acc ≠ []) := by
   intro fuel
   induction fuel with
   | zero => intro W L L' ds rest _ h; simp [louvainUndLoop] at h
@@ -109,7 +143,9 @@ theorem louvainUndLoop_spec (W0 : RMat n) (γ : ℚ) (hW0 : Symm W0) (hs : 0 < t
       by_cases hst : x.starved.isSome = true
       · simp only [hst, if_true] at h
         cases h
-        exact ⟨hL.ok, hL.chain⟩
+        refine ⟨hL.ok, hL.chain, fun hn => ?_⟩
+        simp only at hn
+        rw [hn] at hst; simp at hst
       · simp only [hst] at h
         obtain ⟨m', hm', _⟩ := toLab_ok (labFn x.m)
         simp only [hm'] at h
@@ -133,34 +169,42 @@ theorem louvainUndLoop_spec (W0 : RMat n) (γ : ℚ) (hW0 : Symm W0) (hs : 0 < t
           simp only [id_eq] at this
           rw [← this, labOf_compose, ← hL.agg]; exact hmono'
         set q := qTraceDot (aggUpper W m') (total W0) γ with hqdef
-        have hnew : LevelOK W0 γ (compose L.ci m', q) := by
-          right
-          refine ⟨?_, ?_⟩
-          · simp only; rw [hq, Qund_eq_Qdir W0 γ hW0]
-          · simp only; rw [hq]; exact le_trans hL.start hprev_le
-        by_cases hstop : q - L.qprev < thr
+        have hgen : Genuine W0 γ (compose L.ci m', q) :=
+          ⟨by simp only; rw [hq, Qund_eq_Qdir W0 γ hW0], by simp only; rw [hq]; exact le_trans hL.start hprev_le⟩
+        by_cases hstop : (L.hasPrev && decide (q - L.qprev < thr)) = true
         · simp only [hstop, if_true] at h
           cases h
-          exact ⟨hL.ok, hL.chain⟩
-        · simp only [hstop, if_false] at h
-          refine ih _ _ _ _ _ ?_ h
-          obtain ⟨tl, htl⟩ := hL.head
-          refine ⟨?_, ?_, ?_, ?_, ⟨L.acc, rfl⟩, Or.inr hq, ?_, ?_⟩
-          · rw [aggUpper_eq W hL.symm]; exact aggFull_symm W hL.symm m'
-          · rw [aggUpper_eq W hL.symm, total_aggFull, hL.tot]
-          · intro c'
-            rw [aggUpper_eq W hL.symm, aggregate_Qdir, hL.agg, labOf_compose]
-            rfl
-          · exact le_trans hL.start hprev_le
-          · intro p hp'
-            rcases List.mem_cons.mp hp' with rfl | hp'
-            · exact hnew
-            · exact hL.ok p hp'
-          · rw [htl]
-            refine List.IsChain.cons_cons ?_ (htl ▸ hL.chain)
-            simp only
-            push Not at hstop
-            linarith
+          refine ⟨hL.ok, hL.chain, fun _ hf => ?_⟩
+          simp only [hf, Bool.false_and] at hstop
+          exact absurd hstop (by simp)
+        · simp only [hstop] at h
+          have hrec : LvInv W0 γ (aggUpper W m')
+              { nh := nextSize m' L.nh, ci := compose L.ci m', qprev := q, acc := (compose L.ci m', q) :: L.acc,
+                moves := L.moves + x.moves, ties := L.ties + x.ties, g := x.g } := by
+            refine ⟨?_, ?_, ?_, ?_, Or.inr ⟨⟨L.acc, rfl⟩, rfl⟩, ?_, ?_⟩
+            · rw [aggUpper_eq W hL.symm]; exact aggFull_symm W hL.symm m'
+            · rw [aggUpper_eq W hL.symm, total_aggFull, hL.tot]
+            · intro c'
+              rw [aggUpper_eq W hL.symm, aggregate_Qdir, hL.agg, labOf_compose]
+              rfl
+            · exact le_trans hL.start hprev_le
+            · intro p hp'
+              rcases List.mem_cons.mp hp' with rfl | hp'
+              · exact hgen
+              · exact hL.ok p hp'
+            · rcases hL.head with ⟨he, _⟩ | ⟨⟨tl, htl⟩, hhp⟩
+              · simp only [he]; exact List.isChain_singleton _
+              · rw [htl]
+                refine List.IsChain.cons_cons ?_ (htl ▸ hL.chain)
+                simp only
+                simp only [hhp, Bool.true_and, decide_eq_true_eq, not_lt] at hstop
+                linarith
+          obtain ⟨h1, h2, _⟩ := ih _ _ _ _ _ hrec h
+          refine ⟨h1, h2, fun _ _ => ?_⟩
+          -- the recursive call only extends the list
+          have : ∃ ext, L'.acc = ext ++ (compose L.ci m', q) :: L.acc := louvainUndLoop_suffix _ _ _ _ _ _ _ _ h
+          obtain ⟨ext, he⟩ := this
+          rw [he]; simp
 
 theorem lv0_inv (W0 : RMat n) (γ : ℚ) (hW0 : Symm W0) (g : GState) : LvInv W0 γ W0 (lv0 n g) where
   symm := hW0
@@ -172,21 +216,20 @@ theorem lv0_inv (W0 : RMat n) (γ : ℚ) (hW0 : Symm W0) (g : GState) : LvInv W0
   start := by
     have : labOf (lv0 n g).ci = id := labOf_idLab
     rw [this, Qund_eq_Qdir W0 γ hW0]
-  head := ⟨[], rfl⟩
-  prev := Or.inl rfl
-  ok := by intro p hp; simp [lv0] at hp; exact Or.inl hp
+  head := Or.inl ⟨rfl, rfl⟩
+  ok := by intro p hp; simp [lv0] at hp
   chain := by simp [lv0]
 
 /-- **modularity_louvain_und: C02 + C07 for the model.** On a symmetric network of positive total weight
-and for every sequence of visiting orders: every hierarchy level `(ci, q)` the routine keeps reports
-exactly the modularity of `ci` on the original network, that value is at least the modularity of the
-all-singletons start, and from level to level `q` increases by at least `1e-10` (strictly).  The first
-entry of `out.levels` is the sentinel level 0 `(singletons, −1)`; `hierarchy=True` returns the others, the
-plain call returns the last entry. -/
+and for every sequence of visiting orders: every level `(ci, q)` in `out.levels` (`hierarchy=True` returns all
+of them, the plain call the last) reports exactly the modularity of `ci` on the original network, that value
+is at least the modularity of the all-singletons start, from level to level `q` increases by at least `1e-10`,
+and there is at least one level unless the draw list ran out (`q[0] = -inf`: the first level is always kept). -/
 theorem louvainUnd_spec (W : RMat n) (γ : ℚ) (ds : List ℕ) (out : Out n)
     (hW : Symm W) (hs : 0 < total W) (h : louvainUnd W γ ds g0 = .ok out) :
-    (∀ p ∈ out.levels, LevelOK W γ p) ∧
-    List.IsChain (fun a b : Lab n × ℚ => a.2 + thr ≤ b.2) out.levels := by
+    (∀ p ∈ out.levels, Genuine W γ p) ∧
+    List.IsChain (fun a b : Lab n × ℚ => a.2 + thr ≤ b.2) out.levels ∧
+    (out.starved = none → 1 ≤ out.levels.length) := by
   unfold louvainUnd at h
   have hs0 : ¬ total W = 0 := ne_of_gt hs
   simp only [hs0, if_false, bind, Except.bind, pure, Except.pure] at h
@@ -196,10 +239,36 @@ theorem louvainUnd_spec (W : RMat n) (γ : ℚ) (ds : List ℕ) (out : Out n)
     obtain ⟨L, rest⟩ := r
     simp only [hl] at h
     cases h
-    obtain ⟨hok, hch⟩ := louvainUndLoop_spec W γ hW hs _ _ _ _ _ _ (lv0_inv W γ hW g0) hl
-    refine ⟨fun p hp => hok p (List.mem_reverse.mp hp), ?_⟩
-    simp only
-    rw [List.isChain_reverse]
-    exact hch
+    obtain ⟨hok, hch, hne⟩ := louvainUndLoop_spec W γ hW hs _ _ _ _ _ _ (lv0_inv W γ hW g0) hl
+    refine ⟨fun p hp => hok p (List.mem_reverse.mp hp), ?_, fun hst => ?_⟩
+    · simp only
+      rw [List.isChain_reverse]
+      exact hch
+    · simp only at hst
+      have := hne hst rfl
+      simp only [List.length_reverse]
+      exact List.length_pos_of_ne_nil this
+
+/-- for non-negative symmetric weights the modularity of the all-singletons partition is at least `−γ` -/
+theorem Qund_id_ge (W : RMat n) (γ : ℚ) (hs : 0 < total W) (hnn : ∀ i j, 0 ≤ W.get i j) (hγ : 0 ≤ γ) :
+    -γ ≤ Qund W γ (id : Fin n → Fin n) := by
+  unfold Qund
+  rw [le_div_iff₀ hs, Qobj_eq]
+  have hq : ∀ i, (∑ j, if id i = id j then (Bund W γ).get i j else 0)
+      = W.get i i - γ * rowSum W i * rowSum W i / total W := by intro i; simp
+  simp only [hq, Finset.sum_sub_distrib]
+  have hk : ∀ i, 0 ≤ rowSum W i := fun i => by rw [rowSum_eq]; exact Finset.sum_nonneg (fun j _ => hnn i j)
+  have hk_le : ∀ i, rowSum W i ≤ total W := fun i => by
+    rw [total_eq_sum_rowSum]; exact Finset.single_le_sum (fun j _ => hk j) (Finset.mem_univ i)
+  have htr : 0 ≤ ∑ i, W.get i i := Finset.sum_nonneg (fun i _ => hnn i i)
+  have hsq : ∑ i, γ * rowSum W i * rowSum W i / total W ≤ γ * total W := by
+    have : ∀ i, γ * rowSum W i * rowSum W i / total W ≤ γ * rowSum W i := by
+      intro i
+      rw [div_le_iff₀ hs]
+      have := mul_le_mul_of_nonneg_left (hk_le i) (mul_nonneg hγ (hk i))
+      linarith
+    calc ∑ i, γ * rowSum W i * rowSum W i / total W ≤ ∑ i, γ * rowSum W i := Finset.sum_le_sum (fun i _ => this i)
+      _ = γ * total W := by rw [← Finset.mul_sum, ← total_eq_sum_rowSum]
+  linarith
 
 end Bct.Modularity
